@@ -198,7 +198,8 @@ def build(prog):
             raise KeyError(code)
         b.held["c_" + code] = c
     # LMIs
-    metric_override = None
+    if prog.get("unsent_lmi"):
+        b.held["unsent"] = PSDMatrix([[Expression(), 1], [1, 1]])       # created first, never added to the problem
     for k, code in enumerate(prog.get("lmis", [])):
         xx, x0_ = b.held["x"], b.held["x0"]
         t = Expression()
@@ -226,8 +227,6 @@ def build(prog):
             m = pep.add_psd_matrix(M)
         b.held["t%d" % k] = t
         b.held["lmi%d" % k] = m
-    if prog.get("unsent_lmi"):
-        b.held["unsent"] = PSDMatrix([[Expression(), 1], [1, 1]])       # created, never added to the problem
     if prog.get("part"):
         part = pep.declare_block_partition(d=2)
         xx = b.held["x"]
@@ -488,6 +487,10 @@ def observe(pep, ret, held, exact=False, with_native=True, extra_evals=True):
         out.update(probe_cvxpy(w, NP, NE))
     else:
         out.update(native=[], msizes=[], obj=dict(v=dict(n=[], d=[]), c=[0, 1]))
+    out["task"] = []
+    if pep.wrapper_name == "mosek":
+        import mosek
+        out["task"] = encode_task(mosek.CALLS)
     return out
 
 
@@ -509,4 +512,52 @@ def phases(log):
         elif e["ev"] == "heuristic":
             Wm = e["W"]
             out.append(dict(ev="heuristic", isid=1 if np.allclose(Wm, np.eye(Wm.shape[0])) else 0))
+    return out
+
+
+# ------------------------------------------------------------------------------------------- stand-in MOSEK task log
+
+def encode_task(calls):
+    """Recorded calls of the stand-in mosek.Task -> uniform integer events for spec/MosekTask.tla."""
+    out = []
+
+    def ev(op, k=0, i=(), j=(), vals=None, s="", x=()):
+        n, d = [], []
+        if vals is not None:
+            try:
+                fr = [proj.rat(v, exact=False) for v in vals]
+                n, d = [f.numerator for f in fr], [f.denominator for f in fr]
+            except proj.Inexact:
+                s = "inexact"
+        out.append(dict(op=op, k=int(k), i=[int(v) for v in i], j=[int(v) for v in j], n=n, d=d, s=s,
+                        x=[fx(v) for v in x]))
+    for name, a in calls:
+        if name == "appendbarvars":
+            ev(name, i=a[0])
+        elif name == "appendvars":
+            ev(name, i=[a[0]])
+        elif name == "putvarbound":
+            ev(name, i=[a[0]], s=a[1])
+        elif name == "appendcons":
+            ev(name, i=[a[0]])
+        elif name == "appendsparsesymmat":
+            ev(name, k=a[0], i=a[1], j=a[2], vals=a[3])
+        elif name == "putbaraij":
+            ev(name, k=a[0], i=[a[1]], j=a[2], vals=a[3])
+        elif name == "putaijlist":
+            ev(name, i=a[0], j=a[1], vals=a[2])
+        elif name == "putconbound":
+            ev(name, k=a[0], s=a[1], vals=[a[2], a[3]], x=[a[2], a[3]])
+        elif name == "putclist":
+            ev(name, j=a[0], vals=a[1])
+        elif name == "putbarcj":
+            ev(name, k=a[0], j=a[1], vals=a[2])
+        elif name == "putobjsense":
+            ev(name, s=a[0])
+        elif name == "optimize":
+            ev(name)
+        elif name in ("getxx", "gety"):
+            ev(name, x=a[0])
+        elif name in ("getbarsj", "getbarxj"):
+            ev(name, k=a[0], x=a[1])
     return out
